@@ -16,6 +16,7 @@ func cmdNode(args []string) {
 	servers := fs.String("servers", "", "comma separated server list")
 	maxShardPoints := fs.Int64("maxshardpoints", 1000, "per-shard point maximum")
 	sync := fs.Bool("sync", false, "run the start-up synchronisation")
+	onDemand := fs.Bool("ondemand", false, "run the synchronisation whenever a line 'sync' arrives on stdin")
 	fs.Parse(args)
-	clusterd.RunNodeMain(*root, *port, strings.Split(*servers, ","), *maxShardPoints, *sync)
+	clusterd.RunNodeMain(*root, *port, strings.Split(*servers, ","), *maxShardPoints, *sync, *onDemand)
 }
